@@ -182,8 +182,10 @@ class Ctx:
         import regen_all as ra
 
         ok = True
+        self.translator_ok = {}
         for script, out_rel in ra.JOBS:
             good, msg = self.run_translator(script, out_rel, record=script in needed)
+            self.translator_ok[script] = good
             if script in needed:
                 self.note(msg[-300:])
                 ok = ok and good
